@@ -361,20 +361,19 @@ pub fn rlwinm_(
       zeros. All other bits are set to ones.
     */
 
-    let mask = match mb.cmp(&(me + 1)) {
+    // Bits are numbered from the most significant bit (bit 0) to the least
+    // significant one (bit 31).
+    let mask: u64 = match mb.cmp(&(me + 1)) {
         Ordering::Less => {
-            let mb = 32 - mb;
-            let me = 32 - me;
-            let mask = (1 << (mb - me)) - 1;
-            mask << me
+            // ones in bits mb..=me
+            let ones = (1u64 << (me - mb + 1)) - 1;
+            ones << (31 - me)
         }
         Ordering::Equal => 0xffff_ffff,
         Ordering::Greater => {
-            let mb = 32 - mb;
-            let me = 32 - me;
-            let mask = (1 << (me - mb)) - 1;
-            let mask = mask << mb;
-            mask ^ 0xffff_ffff
+            // zeros in bits me+1..=mb-1, ones everywhere else
+            let zeros = (1u64 << (mb - me - 1)) - 1;
+            (zeros << (32 - mb)) ^ 0xffff_ffff
         }
     };
 
